@@ -555,13 +555,16 @@ pub fn run(tier: Tier, _replay: Option<String>) -> i32 {
                 // early window overlapping the final step-size window
                 (0.5, 0.6, 2, 1, 1, 1.5),
                 (0.3, 1.0, 3, 2, 1, 1.0),
+                // early windows long enough to be estimated from (>= 3 draws) and a regular update
+                // period longer than them: the refresh at an early switch is then the only one
+                (0.6, 0.15, 6, 3, 5, 1.5),
             ],
             Tier::Thorough => {
                 let mut v = vec![];
                 for ew in [0.0, 0.3, 0.6] {
                     for ssw in [0.0, 0.15, 0.5, 1.0] {
-                        for (sf, esf) in [(1, 1), (3, 2), (80, 10)] {
-                            for uf in [1, 3] {
+                        for (sf, esf) in [(1, 1), (3, 2), (6, 3), (80, 10)] {
+                            for uf in [1, 3, 5] {
                                 for g in [1.0, 1.5, 2.0] {
                                     v.push((ew, ssw, sf, esf, uf, g));
                                 }
